@@ -1,5 +1,6 @@
 import WfProofs.EngineRoute
 import WfProofs.EngineIdle
+import WfProofs.RunnerTicks
 import WfModel.Runner
 /-!
 # C02 — every emitted event reaches each accepting step exactly once
@@ -209,3 +210,381 @@ def C02.e5 : Ev := { ty := 5, kind := .plain, uid := 1 }
 example : C02.exCfg.WF := by simp [Cfg.WF, Cfg.names, C02.exCfg]
 example : (C02.exCfg.steps.map (C02.recipients { ev := C02.e5 } none initState)) = [1, 1, 0] := by decide
 example : (C02.exCfg.steps.map (C02.recipients { ev := C02.e5 } (some 2) initState)) = [0, 1, 0] := by decide
+
+/-! ## Whole runs: the runner neither loses nor duplicates a tick on its way to the reducer
+
+`Runner.reduced` = ticks handed to the reducer (the `on_tick` log), `Runner.pending` = ticks in the
+buffer, on the timer heap, in the mailbox.  `createdAtInit`/`createdBy`/`createdAlong`
+(`WfProofs/RunnerTicks.lean`) say which ticks come into being: the start tick, the rehydration
+pings and the run timeout of `Runner.init`; per action the accepted `external` tick, the
+`stepResult` tick of a `workerDone`, and for a `drain` the ticks of the *executed* commands
+(`queueEvent` → `addEvent`, immediately or via the heap; `scheduleWaiterTimeout`; an idle check
+unless one is pending).  Commands behind the first run-ending command are never executed and
+create nothing — "unless the run ends first".  `lostAlong` is the one tick that is consumed
+without being logged: the tick whose reduction raised (`crash`), which ends the run. -/
+
+/-- **conservation, any state, any time** (also after the run ended): reduced + pending (+ the
+tick a crashing reduction swallowed) is a permutation of what was there plus what was created.
+At most one tick is ever lost, and only when the run ended `crashed`. -/
+theorem C02_ticks_conserved_from (cfg : Cfg) (pol : Policy) (r0 : Runner) (acts : List Act) :
+    let r := Runner.run cfg pol r0 acts
+    (r.reduced ++ r.pending ++ lostAlong cfg pol r0 acts).Perm
+        (r0.reduced ++ r0.pending ++ createdAlong cfg pol r0 acts) ∧
+      (lostAlong cfg pol r0 acts).length ≤ 1 ∧
+      (lostAlong cfg pol r0 acts ≠ [] → r.outcome = some .crashed) := by
+  refine ⟨?_, lostAlong_spec cfg pol acts r0⟩
+  rw [List.perm_iff_count]
+  intro t
+  have := run_cnt cfg pol t acts r0
+  rw [Runner.cnt_eq, Runner.cnt_eq] at this
+  rw [List.count_append, List.count_append (l₂ := createdAlong cfg pol r0 acts)]
+  exact this
+
+/-- **conservation over whole runs from `Runner.init`**: while the run has not ended, every
+created tick is either reduced or still pending, with multiplicity — nothing lost, nothing duplicated -/
+theorem C02_ticks_conserved (cfg : Cfg) (pol : Policy) (st0 : State) (now : Int) (start : Option Ev)
+    (timeout : Option Nat) (acts : List Act) :
+    let r0 := Runner.init cfg st0 now start timeout
+    let r := Runner.run cfg pol r0 acts
+    r.outcome = none →
+      (r.reduced ++ r.pending).Perm
+        (createdAtInit cfg st0 now start timeout ++ createdAlong cfg pol r0 acts) := by
+  intro r0 r ho
+  obtain ⟨hp, _, hl⟩ := C02_ticks_conserved_from cfg pol r0 acts
+  have hnil : lostAlong cfg pol r0 acts = [] := by
+    apply Decidable.byContradiction
+    intro hne
+    have := hl hne
+    rw [show Runner.run cfg pol r0 acts = r from rfl, ho] at this
+    cases this
+  rw [hnil, List.append_nil] at hp
+  refine hp.trans (List.Perm.append_right _ ?_)
+  rw [List.perm_iff_count]
+  intro t
+  rw [← Runner.cnt_eq]
+  exact init_cnt cfg st0 now start timeout t
+
+theorem C02.applyRes_cmds (cfg : Cfg) (pol : Policy) (step : Nat) (tickEv : Ev) (dc : Bool) (acc : ResAcc)
+    (x : Res) : ∃ suf, (applyRes cfg pol step tickEv dc acc x).cmds = acc.cmds ++ suf := by
+  cases x with
+  | result o =>
+    cases o with
+    | none => exact ⟨[], by simp [applyRes]⟩
+    | some ev =>
+      simp only [applyRes]
+      split
+      · exact ⟨_, rfl⟩
+      · exact ⟨_, List.append_assoc _ _ _⟩
+  | failed exc failedAt =>
+    simp only [applyRes]
+    split
+    · exact ⟨_, rfl⟩
+    · exact ⟨_, rfl⟩
+    · split
+      · split
+        · exact ⟨_, rfl⟩
+        · exact ⟨_, rfl⟩
+      · exact ⟨_, rfl⟩
+  | addCollected buf ev =>
+    simp only [applyRes]
+    split
+    · exact ⟨_, rfl⟩
+    · exact ⟨[], by simp⟩
+  | deleteCollected buf =>
+    simp only [applyRes]
+    split <;> exact ⟨[], by simp⟩
+  | addWaiter wid waiterEv req timeout ty =>
+    simp only [applyRes]
+    split
+    · exact ⟨[], by simp⟩
+    · exact ⟨_, List.append_assoc _ _ _⟩
+  | deleteWaiter wid =>
+    simp only [applyRes]
+    split <;> exact ⟨[], by simp⟩
+
+theorem C02.applyRes_rc (cfg : Cfg) (pol : Policy) (step : Nat) (tickEv : Ev) (dc : Bool) (acc : ResAcc)
+    (x : Res) : (applyRes cfg pol step tickEv dc acc x).exec.rc = acc.exec.rc := by
+  cases x with
+  | result o =>
+    cases o with
+    | none => rfl
+    | some ev => simp only [applyRes]; split <;> rfl
+  | failed exc failedAt =>
+    simp only [applyRes]
+    split
+    · rfl
+    · rfl
+    · split
+      · split <;> rfl
+      · rfl
+  | addCollected buf ev => simp only [applyRes]; split <;> rfl
+  | deleteCollected buf => simp only [applyRes]; split <;> rfl
+  | addWaiter wid waiterEv req timeout ty => simp only [applyRes]; split <;> rfl
+  | deleteWaiter wid => simp only [applyRes]; split <;> rfl
+
+theorem C02.foldl_applyRes_mono (cfg : Cfg) (pol : Policy) (step : Nat) (tickEv : Ev) (dc : Bool) :
+    ∀ (res : List Res) (acc : ResAcc) (c : Cmd), c ∈ acc.cmds →
+      c ∈ (res.foldl (applyRes cfg pol step tickEv dc) acc).cmds
+  | [], _, _, h => h
+  | x :: xs, acc, c, h => by
+    simp only [List.foldl_cons]
+    apply C02.foldl_applyRes_mono cfg pol step tickEv dc xs
+    obtain ⟨suf, hs⟩ := C02.applyRes_cmds cfg pol step tickEv dc acc x
+    rw [hs]; exact List.mem_append_left _ h
+
+/-- every non-stop event among a step's results is re-queued (uses `C02_outputs_requeued` for
+the single result) with the recovery counts of the execution -/
+theorem C02.foldl_applyRes_output (cfg : Cfg) (pol : Policy) (step : Nat) (tickEv : Ev) (dc : Bool)
+    (e : Ev) (hk : e.kind ≠ .stop) :
+    ∀ (res : List Res) (acc : ResAcc), Res.result (some e) ∈ res →
+      Cmd.queueEvent { ev := e, rc := acc.exec.rc } none none ∈
+        (res.foldl (applyRes cfg pol step tickEv dc) acc).cmds
+  | [], _, h => by simp at h
+  | x :: xs, acc, h => by
+    simp only [List.foldl_cons]
+    rcases List.mem_cons.mp h with h | h
+    · subst h
+      apply C02.foldl_applyRes_mono
+      obtain ⟨pre, hp, _⟩ := C02_outputs_requeued cfg pol step tickEv dc acc e hk
+      rw [hp]; simp
+    · have := C02.foldl_applyRes_output cfg pol step tickEv dc e hk xs (applyRes cfg pol step tickEv dc acc x) h
+      rwa [C02.applyRes_rc] at this
+
+theorem C02.foldl_applyRes_stop (cfg : Cfg) (pol : Policy) (step : Nat) (tickEv : Ev) (dc : Bool) :
+    ∀ (res : List Res) (acc : ResAcc), hasStopResult res = true →
+      ∃ c ∈ (res.foldl (applyRes cfg pol step tickEv dc) acc).cmds, cmdEnds c = true
+  | [], _, h => by simp [hasStopResult] at h
+  | x :: xs, acc, h => by
+    simp only [List.foldl_cons]
+    simp only [hasStopResult, List.any_cons, Bool.or_eq_true] at h
+    rcases h with h | h
+    · cases x with
+      | result o =>
+        cases o with
+        | none => simp at h
+        | some ev =>
+          have hk : ev.kind = .stop := by simpa using h
+          refine ⟨.completeRun (.event ev), ?_, rfl⟩
+          apply C02.foldl_applyRes_mono
+          simp [applyRes, hk]
+      | _ => simp at h
+    · exact C02.foldl_applyRes_stop cfg pol step tickEv dc xs _ h
+
+/-- membership in the accumulated commands survives `settle`, the queue drain and the idle check -/
+theorem C02.reduce_stepResult_mem (cfg : Cfg) (pol : Policy) (s w : Nat) (ev : Ev) (res : List Res)
+    (st : State) (now : Int) (hnc : Cmd.crash ∉ (reduce cfg pol (.stepResult s w ev res) st now).2) :
+    ∃ exec, (st.workers s).inProg.find? (fun x => x.wid == w) = some exec ∧
+      ∀ c ∈ (res.foldl (applyRes cfg pol s ev (res.any isResult)) { st := st, exec := exec }).cmds,
+        c ∈ (reduce cfg pol (.stepResult s w ev res) st now).2 := by
+  have hwi : ∀ (p : State × List Cmd) (c : Cmd), c ∈ p.2 →
+      c ∈ (if checkIdle cfg p.1 then (p.1, p.2 ++ [Cmd.scheduleIdleCheck]) else p).2 := by
+    intro p c hc; split
+    · exact List.mem_append_left _ hc
+    · exact hc
+  simp only [reduce] at hnc ⊢
+  by_cases hs : (!cfg.hasStep s) = true
+  · exfalso; apply hnc; apply hwi; simp [processStepResult, hs]
+  · cases hf : (st.workers s).inProg.find? (fun x => x.wid == w) with
+    | none => exfalso; apply hnc; apply hwi; simp [processStepResult, hs, hf]
+    | some exec =>
+      refine ⟨exec, rfl, ?_⟩
+      intro c hc
+      apply hwi
+      simp only [processStepResult, hs, Bool.false_eq_true, ↓reduceIte, hf]
+      have hset : c ∈ (settle (res.foldl (applyRes cfg pol s ev (res.any isResult)) { st := st, exec := exec }) s w ev).2 := by
+        unfold settle
+        simp only
+        split
+        · exact hc
+        · exact List.mem_cons_of_mem _ hc
+      split
+      · exact hset
+      · exact List.mem_append_left _ hset
+
+/-- a tick is never reduced more often than it was created (at any time, also after the end);
+while the run is open the counts add up exactly -/
+theorem C02_event_reduced_at_most_once_per_creation (cfg : Cfg) (pol : Policy) (st0 : State) (now : Int)
+    (start : Option Ev) (timeout : Option Nat) (acts : List Act) (t : Tick) :
+    let r0 := Runner.init cfg st0 now start timeout
+    let r := Runner.run cfg pol r0 acts
+    List.count t r.reduced ≤
+        List.count t (createdAtInit cfg st0 now start timeout) + List.count t (createdAlong cfg pol r0 acts) ∧
+      (r.outcome = none →
+        List.count t r.reduced + List.count t r.pending =
+          List.count t (createdAtInit cfg st0 now start timeout) + List.count t (createdAlong cfg pol r0 acts)) := by
+  dsimp only
+  have h := run_cnt cfg pol t acts (Runner.init cfg st0 now start timeout)
+  rw [init_cnt, Runner.cnt_eq, List.count_append] at h
+  refine ⟨by omega, ?_⟩
+  intro ho
+  have hp := (C02_ticks_conserved cfg pol st0 now start timeout acts ho).count_eq t
+  simpa only [List.count_append] using hp
+
+/-- a created tick that has not been reduced as often as it was created is still pending
+(buffer, timer heap or mailbox) — unless the run has ended -/
+theorem C02_unreduced_tick_still_pending (cfg : Cfg) (pol : Policy) (st0 : State) (now : Int)
+    (start : Option Ev) (timeout : Option Nat) (acts : List Act) (t : Tick) :
+    let r0 := Runner.init cfg st0 now start timeout
+    let r := Runner.run cfg pol r0 acts
+    r.outcome = none →
+    List.count t r.reduced <
+      List.count t (createdAtInit cfg st0 now start timeout) + List.count t (createdAlong cfg pol r0 acts) →
+    t ∈ r.pending := by
+  dsimp only
+  intro ho hlt
+  have h := (C02_event_reduced_at_most_once_per_creation cfg pol st0 now start timeout acts t).2 ho
+  apply List.count_pos_iff.mp
+  omega
+
+/-- once a run has ended nothing is reduced any more: the pending ticks stay where they are -/
+theorem C02_ended_run_is_frozen (cfg : Cfg) (pol : Policy) (r : Runner) (more : List Act)
+    (h : r.outcome.isSome = true) : Runner.run cfg pol r more = r :=
+  run_ended' cfg pol more r h
+
+/-- a step's non-stop output event reaches the reducer's input buffer: reducing the worker's
+`stepResult` tick (logged exactly there) leaves an `addEvent` tick carrying that event and the
+execution's recovery counts in the buffer — or the run ended with this very reduction -/
+theorem C02_step_output_reaches_reducer (cfg : Cfg) (pol : Policy) (r : Runner) (s w : Nat) (ev : Ev)
+    (res : List Res) (rest : List Tick) (e : Ev)
+    (ho : r.outcome = none) (hb : r.buf = .stepResult s w ev res :: rest)
+    (hm : Res.result (some e) ∈ res) (hk : e.kind ≠ .stop) :
+    (r.step cfg pol .drain).outcome.isSome = true ∨
+      ∃ exec, (r.st.workers s).inProg.find? (fun x => x.wid == w) = some exec ∧
+        (r.step cfg pol .drain).reduced = r.reduced ++ [.stepResult s w ev res] ∧
+        Tick.addEvent { ev := e, rc := exec.rc } none ∈ (r.step cfg pol .drain).buf := by
+  cases hout : (r.step cfg pol .drain).outcome with
+  | some o => left; rfl
+  | none =>
+    right
+    rw [step_drain cfg pol r _ _ ho hb] at hout ⊢
+    by_cases hc : (reduce cfg pol (.stepResult s w ev res) r.st r.now).2.contains .crash = true
+    · rw [if_pos hc] at hout; simp [Runner.finish] at hout
+    · rw [if_neg hc] at hout ⊢
+      have hnc : Cmd.crash ∉ (reduce cfg pol (.stepResult s w ev res) r.st r.now).2 := by
+        simpa using hc
+      obtain ⟨exec, hf, hmem⟩ := C02.reduce_stepResult_mem cfg pol s w ev res r.st r.now hnc
+      refine ⟨exec, hf, ?_, ?_⟩
+      · simp [Runner.reduced, Runner.logged, execCmds_log]
+      · apply execCmds_queue_buffered _ _ (by exact ho) hout
+        apply hmem
+        exact C02.foldl_applyRes_output cfg pol s ev _ e hk res _ hm
+
+/-- a finished worker whose results contain a `StopEvent` cancels the other workers (the runner
+clears `running`, so their results never become ticks) — and the very next reduction ends the run -/
+theorem C02_stop_result_ends_run (cfg : Cfg) (pol : Policy) (r : Runner) (s w : Nat) (ev : Ev)
+    (res : List Res) (rest : List Tick)
+    (ho : r.outcome = none) (hb : r.buf = .stepResult s w ev res :: rest)
+    (hstop : hasStopResult res = true) :
+    (r.step cfg pol .drain).outcome.isSome = true := by
+  rw [step_drain cfg pol r _ _ ho hb]
+  by_cases hc : (reduce cfg pol (.stepResult s w ev res) r.st r.now).2.contains .crash = true
+  · rw [if_pos hc]; rfl
+  · rw [if_neg hc]
+    have hnc : Cmd.crash ∉ (reduce cfg pol (.stepResult s w ev res) r.st r.now).2 := by
+      simpa using hc
+    obtain ⟨exec, hf, hmem⟩ := C02.reduce_stepResult_mem cfg pol s w ev res r.st r.now hnc
+    obtain ⟨c, hcm, hce⟩ := C02.foldl_applyRes_stop cfg pol s ev (res.any isResult) res
+      { st := r.st, exec := exec } hstop
+    exact execCmds_ends _ (r.logged _ rest _) ho ⟨c, hmem c hcm, hce⟩
+
+/-- the buffer is a FIFO in front of the reducer: a tick at position `n` of the buffer has been
+reduced after `n + 1` drains, unless the run ended first -/
+theorem C02_buffered_tick_reaches_reducer (cfg : Cfg) (pol : Policy) (t : Tick) :
+    ∀ (pre : List Tick) (r : Runner) (post : List Tick), r.outcome = none → r.buf = pre ++ t :: post →
+      let r' := Runner.run cfg pol r (List.replicate (pre.length + 1) .drain)
+      r'.outcome.isSome = true ∨ t ∈ r'.reduced
+  | [], r, post, ho, hb => by
+    simp only [List.length_nil, Nat.zero_add, List.replicate_one, Runner.run, List.foldl_cons, List.foldl_nil]
+    simp only [List.nil_append] at hb
+    rw [step_drain cfg pol r _ _ ho hb]
+    split
+    · left; rfl
+    · right; simp [Runner.reduced, Runner.logged, execCmds_log]
+  | x :: pre, r, post, ho, hb => by
+    simp only [List.length_cons, List.replicate_succ, Runner.run, List.foldl_cons]
+    cases hout : (r.step cfg pol .drain).outcome with
+    | some o =>
+      left
+      have := run_ended' cfg pol (List.replicate (pre.length + 1) .drain) (r.step cfg pol .drain) (by simp [hout])
+      simp only [Runner.run, List.replicate_succ, List.foldl_cons] at this
+      rw [this]; simp [hout]
+    | none =>
+      have hbuf : ∃ extra, (r.step cfg pol .drain).buf = pre ++ t :: (post ++ extra) := by
+        rw [step_drain cfg pol r x (pre ++ t :: post) ho hb] at hout ⊢
+        split
+        · rename_i hc; rw [if_pos hc] at hout; simp [Runner.finish] at hout
+        · obtain ⟨extra, he⟩ := execCmds_buf_prefix (reduce cfg pol x r.st r.now).2
+            (r.logged x (pre ++ t :: post) (reduce cfg pol x r.st r.now).1)
+          exact ⟨extra, by rw [he]; simp [Runner.logged]⟩
+      obtain ⟨extra, he⟩ := hbuf
+      have := C02_buffered_tick_reaches_reducer cfg pol t pre (r.step cfg pol .drain) (post ++ extra) hout he
+      simpa only [Runner.run, List.replicate_succ, List.foldl_cons] using this
+
+/-! Non-vacuity on a concrete run: a start step whose output fans out to two accepting steps,
+a failed attempt whose retry sits on the timer heap, an external send waiting in the mailbox. -/
+def C02.runCfg : Cfg :=
+  { steps := [{ name := 0, accepted := [1], numWorkers := 1, hasRetry := false },
+              { name := 1, accepted := [5], numWorkers := 1, hasRetry := true },
+              { name := 2, accepted := [5, 6], numWorkers := 2, hasRetry := false }] }
+def C02.startEv : Ev := { ty := 1, kind := .start, uid := 0 }
+def C02.e6 : Ev := { ty := 6, kind := .plain, uid := 2 }
+def C02.retryPol : Policy := fun _ _ _ _ => .retry 5
+def C02.r0 : Runner := Runner.init C02.runCfg initState 0 (some C02.startEv) (some 100)
+/-- start → step 0 returns `e5` (the reducer also schedules an idle check: for one tick nothing is
+queued or running) → `e5` is routed to steps 1 and 2 → the idle check finds work → step 1 fails
+(retry in 5 s, on the heap) → a caller sends `e6` (mailbox) -/
+def C02.sched : List Act :=
+  [.drain, .workerDone 0 0 [.result (some C02.e5)], .drain, .drain, .drain,
+   .workerDone 1 0 [.failed 9 3], .drain, .external (.addEvent { ev := C02.e6 } none)]
+def C02.retryTick : Tick :=
+  .addEvent { ev := C02.e5, attempts := some 1, firstAt := some 0, lastExc := some 9, lastFailedAt := some 3 } (some 1)
+
+example : C02.runCfg.WF := by simp [Cfg.WF, Cfg.names, C02.runCfg]
+example :
+    let r := Runner.run C02.runCfg C02.retryPol C02.r0 C02.sched
+    r.outcome = none ∧
+    r.reduced = [.addEvent { ev := C02.startEv } none, .stepResult 0 0 C02.startEv [.result (some C02.e5)],
+                 .addEvent { ev := C02.e5 } none, .idleCheck, .stepResult 1 0 C02.e5 [.failed 9 3]] ∧
+    r.pending = [.timeout 100, C02.retryTick, .addEvent { ev := C02.e6 } none] ∧
+    r.running = [{ step := 2, wid := 0, ev := C02.e5 }] := by decide
+/-- the event was handed to both accepting steps (one worker started in each) -/
+example :
+    let r := Runner.run C02.runCfg C02.retryPol C02.r0 (C02.sched.take 4)
+    r.running = [{ step := 1, wid := 0, ev := C02.e5 }, { step := 2, wid := 0, ev := C02.e5 }] := by decide
+example : createdAtInit C02.runCfg initState 0 (some C02.startEv) (some 100) =
+    [.addEvent { ev := C02.startEv } none, .timeout 100] := by decide
+example : createdAlong C02.runCfg C02.retryPol C02.r0 C02.sched =
+    [.stepResult 0 0 C02.startEv [.result (some C02.e5)], .addEvent { ev := C02.e5 } none, .idleCheck,
+     .stepResult 1 0 C02.e5 [.failed 9 3], C02.retryTick, .addEvent { ev := C02.e6 } none] := by decide
+/-- later: the mailbox is pulled, time passes, the timer fires, the retry is delivered — every
+created tick has now been reduced exactly once, only the run timeout is still pending -/
+example :
+    let r := Runner.run C02.runCfg C02.retryPol C02.r0
+      (C02.sched ++ [.pull, .drain, .advance 5, .timer, .drain])
+    r.outcome = none ∧ r.pending = [.timeout 100] ∧
+    r.reduced.count C02.retryTick = 1 ∧ r.reduced.count (.addEvent { ev := C02.e6 } none) = 1 ∧
+    r.reduced.length = 7 := by decide
+/-- `C02_step_output_reaches_reducer` applies: after the second action the buffer holds step 0's result -/
+example :
+    let r := Runner.run C02.runCfg C02.retryPol C02.r0 (C02.sched.take 2)
+    r.outcome = none ∧ r.buf = [.stepResult 0 0 C02.startEv [.result (some C02.e5)]] ∧
+    (r.step C02.runCfg C02.retryPol .drain).buf = [.addEvent { ev := C02.e5 } none, .idleCheck] := by decide
+/-- a run that ends drops what is pending: the retry and the external event are never reduced -/
+example :
+    let r := Runner.run C02.runCfg C02.retryPol C02.r0
+      (C02.sched ++ [.workerDone 2 0 [.result (some { ty := 9, kind := .stop, uid := 3 })], .drain, .pull, .drain, .timer, .drain])
+    r.outcome.isSome = true ∧ r.pending = [.timeout 100, C02.retryTick, .addEvent { ev := C02.e6 } none] ∧
+    r.reduced.length = 6 := by decide
+example :
+    let r := Runner.run C02.runCfg C02.retryPol C02.r0 C02.sched
+    (r.reduced ++ r.pending).Perm
+      (createdAtInit C02.runCfg initState 0 (some C02.startEv) (some 100) ++
+        createdAlong C02.runCfg C02.retryPol C02.r0 C02.sched) :=
+  C02_ticks_conserved C02.runCfg C02.retryPol initState 0 (some C02.startEv) (some 100) C02.sched (by decide)
+/-- the `lost` slot is real: a retry policy that raises makes the reduction crash, and the runner has
+already taken the tick off the buffer without logging it -/
+example :
+    let acts : List Act := [.drain, .workerDone 0 0 [.result (some C02.e5)], .drain, .drain, .drain,
+      .workerDone 1 0 [.failed 9 3], .drain]
+    (Runner.run C02.runCfg (fun _ _ _ _ => .raise) C02.r0 acts).outcome = some .crashed ∧
+    lostAlong C02.runCfg (fun _ _ _ _ => .raise) C02.r0 acts = [.stepResult 1 0 C02.e5 [.failed 9 3]] := by decide
